@@ -18,6 +18,7 @@ class Universe:
         # removed entry's inode number to a new entry (APFS / HFS+ never re-use one; tmpfs and ext4 do at once)
         self.pin_inodes = pin_inodes
         self._pins = []
+        self._held = {}
         d = os.environ.get("TMPDIR") or None
         self.base = os.path.realpath(tempfile.mkdtemp(prefix="wdverif-fs-", dir=d))
         os.mkdir(os.path.join(self.base, "W"))
@@ -72,12 +73,13 @@ class Universe:
         return out
 
     def cleanup(self):
-        for fd in self._pins:
+        for fd in self._pins + list(self._held.values()):
             try:
                 os.close(fd)
             except OSError:
                 pass
         self._pins = []
+        self._held = {}
         shutil.rmtree(self.base, ignore_errors=True)
 
     def _pin(self, path, deep=False):
@@ -112,6 +114,16 @@ class Universe:
                     return False
                 cur = os.stat(self.p(op[1])).st_mode & 0o777
                 os.chmod(self.p(op[1]), 0o700 if cur != 0o700 else 0o755)
+            elif k == "hold":
+                # another process keeps the directory open (its cwd, an open descriptor): when it is removed the kernel
+                # announces IN_DELETE at once but IN_DELETE_SELF / IN_IGNORED only once the holder lets go
+                if op[1] in self._held or not os.path.isdir(self.p(op[1])):
+                    return False
+                self._held[op[1]] = os.open(self.p(op[1]), os.O_RDONLY | os.O_DIRECTORY)
+            elif k == "release":
+                if op[1] not in self._held:
+                    return False
+                os.close(self._held.pop(op[1]))
             elif k == "unlink":
                 self._pin(self.p(op[1]))
                 os.unlink(self.p(op[1]))
@@ -156,11 +168,20 @@ class Recorder:
             def on_any_event(self, event):
                 rec.events.append(event)
                 if rec.sentinel and event.src_path in rec.sentinel and type(event).__name__ == "FileDeletedEvent":
+                    rec._after_deleted = True
                     rec.drained.set()
+                elif rec._after_deleted:
+                    # the sentinel's deletion is followed by the DirModifiedEvent of the root: only then is the sentinel's
+                    # own trail over (a caller woken by `drained` alone can start its next operation before this event is
+                    # delivered and would count it as that operation's)
+                    rec._after_deleted = False
+                    rec.settled.set()
 
         self.events = []
         self.sentinel = ()
         self.drained = threading.Event()
+        self.settled = threading.Event()
+        self._after_deleted = False
         self.handler = H()
 
     def canon(self, uni, skip_sentinel=True):
@@ -182,10 +203,15 @@ def drain(uni, rec, timeout=5.0):
     path = os.path.join(uni.p("W"), name)
     rec.sentinel = (path, os.fsencode(path))
     rec.drained.clear()
+    rec.settled.clear()
+    rec._after_deleted = False
     fd = os.open(path, os.O_CREAT | os.O_EXCL | os.O_WRONLY)
     os.close(fd)
     os.unlink(path)
     ok = rec.drained.wait(timeout)
+    if ok:
+        rec.settled.wait(0.5)       # the root's DirModifiedEvent that accompanies the deletion (absent under some filters)
+    rec._after_deleted = False
     rec.sentinel = ()
     return ok
 
